@@ -3,7 +3,7 @@ from .. import core, fam
 from . import famcheck
 
 PROP = "C02"
-ROLES = ("body", "post")
+ROLES = ("body", "post", "sibling")
 
 
 def specs(tier):
@@ -28,11 +28,12 @@ def specs(tier):
                                 else:
                                     levels.append({"pre": 1 if pre else 0, "post": b[0], "snap": b[1] if b[0] else 0, "defines": True})
                             levels.append({"pre": pre, "post": post, "snap": snap, "inv": inv, "defines": True})
-                            idx = len(out)
-                            out.append({"kind": kind, "is_async": is_async, "dbc": dbc, "levels": levels,
-                                        "style": ("def", "lambda")[idx % 2],
-                                        "err": ("default", "cls", "fac", "inst")[(idx // 2) % 4],
-                                        "cap_alias": bool((idx // 8) % 2)})
+                            for sibling in ((False, True) if kind in ("pset", "pdel") else (False,)):
+                                idx = len(out)
+                                out.append({"kind": kind, "is_async": is_async, "dbc": dbc, "levels": levels,
+                                            "style": ("def", "lambda")[idx % 2],
+                                            "err": ("default", "cls", "fac", "inst")[(idx // 2) % 4],
+                                            "cap_alias": bool((idx // 8) % 2), "sibling_contract": sibling})
     return out
 
 
@@ -51,6 +52,8 @@ def params(spec):
 
 def symptom_of(exp, obs):
     if exp is None:
+        if obs[0] == "sibling":
+            return "contract_of_another_accessor_evaluated"
         return "extra_evaluation_" + obs[0]
     if obs is None:
         return "missing_evaluation_" + exp[0]
